@@ -2122,6 +2122,91 @@ pub fn mode_overflow_probe(seed: u64) {
     }
 }
 
+
+// ------------------------------------------------------------------------------------------
+// Known finding F28 (fixed witness, independent of VERIF_SEED): floating-point overflow of the temperature factor
+// ------------------------------------------------------------------------------------------
+const OVW_HOT_SLOTS: &str = "L38:3@2;2,3;01;01;D;0+5@6;3;1;0;O;1+6@6;3;0;0;D;1+7@5;2;0;1;O;1+8@1;1,2;01;01;D;0+9@3;0;1;1;D;1+10@5;2;1;1;D;1+11@3;0;1;1;D;1+12@7;0;1;1;D;0+14@7;0;1;1;D;0+15@5;2;1;1;D;1+16@7;0;1;1;D;0+18@4;1;0;0;D;1+21@1;1,2;01;01;D;0+23@3;0;1;1;D;1+26@2;2,3;10;10;D;0+27@6;3;0;1;O;1+28@9;2;1;1;D;0+29@4;1;0;0;D;1+30@1;1,2;01;01;D;0+31@9;2;1;1;D;0+33@3;0;1;0;O;1+34@4;1;0;0;D;1+35@3;0;0;1;O;1+36@1;1,2;01;01;D;0+37@5;2;1;0;O;1";
+
+/// an Ising sampler holding a literal operator string (protocol encoding of `show_slots`)
+fn ising_from_literal(edges: Vec<((usize, usize), f64)>, gamma: f64, h: f64, cutoff: usize, state: Vec<bool>, slots: &str) -> IsingQ {
+    use qmc::sse::fast_ops::FastOp;
+    let body = slots.split(':').nth(1).unwrap_or("").to_string();
+    IsingQ::new_with_rng_with_manager_hook(edges, gamma, h, cutoff, SplitMix64::new(28), Some(state), move |nvars, _nbonds| {
+        let ops: Vec<(usize, FastOp)> = body
+            .split('+')
+            .filter(|t| !t.is_empty())
+            .map(|t| {
+                let (p, rest) = t.split_once('@').unwrap();
+                let f: Vec<&str> = rest.split(';').collect();
+                let bond: usize = f[0].parse().unwrap();
+                let vars: Vec<usize> = f[1].split(',').map(|v| v.parse().unwrap()).collect();
+                let b = |x: &str| -> Vec<bool> { x.chars().map(|c| c == '1').collect() };
+                let constant = f[5] == "1";
+                let op = if f[4] == "D" {
+                    FastOp::diagonal(vars, bond, b(f[2]), constant)
+                } else {
+                    FastOp::offdiagonal(vars, bond, b(f[2]), b(f[3]), constant)
+                };
+                (p.parse().unwrap(), op)
+            })
+            .collect();
+        FastOps::new_from_ops(nvars, ops)
+    })
+}
+
+/// The witness pair of F28 and its control. Position 0: a freshly added replica (no operators, cutoff 4) at
+/// beta = 2^51 * unit^-1-scale; position 1: a hot replica (beta = 5/2) holding the literal 26-operator string.
+/// `unit = 2^-45`: the cold replica's couplings are the hot ones times 2^-45 (another energy unit, beta*J comparable).
+/// `unit = 1` (control): same Hamiltonian, beta = 64.
+pub fn mode_overflow_witness() {
+    for (name, unit) in [("unit-2^-45", (2.0f64).powi(-45)), ("control-common-unit", 1.0)] {
+        let hot_edges = vec![((0usize, 1usize), 1.5), ((1, 2), 1.0), ((2, 3), 0.75)];
+        let (gamma, h) = (1.25, 0.75);
+        let cold_edges: Vec<((usize, usize), f64)> = hot_edges.iter().map(|(e, j)| (*e, j * unit)).collect();
+        let cold = IsingQ::new_with_rng(cold_edges, gamma * unit, h * unit, 4, SplitMix64::new(1), Some(vec![false, true, false, true]));
+        let hot = ising_from_literal(hot_edges, gamma, h, 40, vec![true, false, false, true], OVW_HOT_SLOTS);
+        let (bc, bh) = (64.0 / unit, 2.5);
+        let input_reps = |tc: &TC<IsingQ>| -> String {
+            tc.graph_ref()
+                .iter()
+                .map(|(g, b)| format!("{} {} {} {} {}", g.q.describe(), rat(*b), g.q.sampler_cutoff(), bits(g.q.state_ref()), g.q.slots()))
+                .collect::<Vec<_>>()
+                .join(" ")
+        };
+        let log = new_log();
+        let tc = match build(vec![(cold, bc), (hot, bh)], &log) {
+            Ok(t) => t,
+            Err(e) => {
+                emit(true, &format!("ovw {}", name), "refused", Some(Err(format!("container refused the witness pair: {}", e))));
+                continue;
+            }
+        };
+        let input = format!("ovw {} {}", name, input_reps(&tc));
+        let sound = tc.graph_ref().iter().all(|(g, _)| {
+            let st = g.q.state_ref().to_vec();
+            replica_sound(&g.q).is_ok() && propagate_check(g.q.get_manager_ref(), &st).map(|f| f == st).unwrap_or(false)
+        });
+        let script = vec![1u64 << 62, 1u64 << 63, 1u64 << 63];
+        let r = bisect_pair(&tc, &script, 1, 0);
+        let want = {
+            let gr = tc.graph_ref();
+            oracle_ratio(&gr[0].0.q, bc, &gr[1].0.q, bh)
+        };
+        let verdict = if want >= 1.0 { "ge1" } else { "lt1" };
+        let oracle = match r {
+            Err(e) => Err(format!("tempering step panicked: {}", e)),
+            Ok(_) if !sound => Err("witness configurations are not legal / consistent".to_string()),
+            Ok(p) if (p - want).abs() > 1e-9 => Err(format!(
+                "the exact Metropolis ratio of this pair is >= 1 (exchange probability {:.12}; Lean: Qmc.C10.swap_overflow_witness) but the code's bisected exchange probability is {:.12} [F28: temperature factor overflows to +inf, coupling-ratio product underflows to 0, inf * 0 = NaN is never accepted]",
+                want, p
+            )),
+            Ok(_) => Ok(()),
+        };
+        emit(true, &input, verdict, Some(oracle));
+    }
+}
+
 #[allow(dead_code)]
 fn main() {
     quiet_panics();
@@ -2134,6 +2219,7 @@ fn main() {
         }
         "gmixed" => mode_generic_mixed(a.seed, a.thorough),
         "overflowprobe" => mode_overflow_probe(a.seed),
+        "overflow-witness" => mode_overflow_witness(),
         "pairs" => mode_pairs(a.seed, a.thorough),
         "mismatch" => mode_mismatch(a.seed),
         "grow" => mode_grow(a.seed, a.thorough),
